@@ -1,2 +1,49 @@
--- line-protocol model driver for C20 (stub)
-def main : IO Unit := IO.println "stub C20"
+-- line-protocol model driver for C20: replays the semantic event log of the real event loop on `JanetModel.Loop`
+import Driver.Util
+import JanetModel.Loop.Model
+
+open JanetModel.Loop
+
+def parseEv : List String → Option Ev
+  | ["sched", n] => n.toNat?.map .sched
+  | ["pop", n] => n.toNat?.map .pop
+  | ["ran", n, "s"] => n.toNat?.map (.ran · true)
+  | ["ran", n, "f"] => n.toNat?.map (.ran · false)
+  | ["gcfiber", n] => n.toNat?.map .gcFiber
+  | ["astart"] => some .astart
+  | ["aend"] => some .aend
+  | ["gclistener"] => some .gcListener
+  | ["await"] => some .await
+  | ["nofiber"] => some .callNoFiber
+  | ["procwait"] => some .procWait
+  | ["dawait"] => some .deliverAwait
+  | ["dnofiber"] => some .deliverNoFiber
+  | ["dproc"] => some .deliverProc
+  | ["post", "cb"] => some (.post false)
+  | ["post", "null"] => some (.post true)
+  | ["dposted"] => some .deliverPosted
+  | ["dnull"] => some .deliverNull
+  | ["tchanpend"] => some .tchanPend
+  | ["dchan"] => some .deliverChan
+  | ["tchandirect"] => some .tchanDirect
+  | ["tadd", n, k] => n.toNat?.map (fun f => .tadd ⟨f, k == "d"⟩)
+  | ["tpop", n, k] => n.toNat?.map (fun f => .tpop ⟨f, k == "d"⟩)
+  | _ => none
+
+def showSt (s : St) : String :=
+  s!"lc={s.lc} tq={s.timers.length} rq={s.runq.length} roots={s.roots} susp={s.susp.length} lis={s.lis} pipecalls={s.posted + s.postedNull + s.calls} done={if loopDone s then 1 else 0} nullstuck={s.nullStuck} tleak={s.tchanLeaked}"
+
+def stepLine (s : St) (toks : List String) : St × String :=
+  match toks with
+  | ["snap"] => (s, showSt s)
+  | ["reset"] => (init, "ok")
+  | ["cfg"] => (s, s!"tchanUnroot={Cfg.ofGen.tchanUnroot}")
+  | _ =>
+    match parseEv toks with
+    | none => (s, "unknown " ++ " ".intercalate toks)
+    | some e =>
+      match step Cfg.ofGen s e with
+      | none => (s, "invalid " ++ " ".intercalate toks)
+      | some s' => (s', "ok")
+
+def main : IO Unit := Driver.runLoop init stepLine
